@@ -179,6 +179,12 @@ var c08Recursion = []string{
 	`function f(n) { if (n < 300) { return f(n + 1); } return n; } return f(0);`,
 }
 
+// constant expressions: every binary operator over edge-case literals (the
+// optimizer folds constants while Prepare runs, outside any recover)
+var c08ConstOps = []string{"+", "-", "*", "/", "%", "**", "<", "<=", ">", ">=", "==", "!=", "&&", "||", "~=", "!~", "in", ".."}
+var c08ConstVals = []string{"0", "1", "-1", "7", "9223372036854775807", "-9223372036854775807", "0.0", "2.5", "-0.5", "1e308", `""`, `"s"`, "true", "false", "[]", "[1, 2]", "/a/", "65535", "65536"}
+var c08ConstShapes = []string{"return %s %s %s;", "if (%s %s %s) { return 1; } return 2;", "function f() { return %s %s %s; } return f();", "x = %s %s %s; return x;"}
+
 // scripts that build a deeply nested value at run time and then print it
 // (%d = number of loop iterations)
 var c08RuntimeNest = []string{
@@ -233,6 +239,13 @@ func (p *c08) Enumerate(tier string) [][]int32 {
 		for api := 0; api < 2; api++ {
 			for opt := 0; opt < 2; opt++ {
 				out = append(out, []int32{5, int32(s), int32(api), int32(opt)})
+			}
+		}
+	}
+	for op := range c08ConstOps {
+		for a := range c08ConstVals {
+			for b := range c08ConstVals {
+				out = append(out, []int32{13, int32(op), int32(a), int32(b), int32((op + a + b) % len(c08ConstShapes)), int32((a + b) % 2)})
 			}
 		}
 	}
@@ -443,7 +456,7 @@ func (p *c08) mutate(c *verifsim.Chooser, text string) (string, string) {
 func (p *c08) Run(c *verifsim.Chooser, st *Stats, render bool) *Outcome {
 	o := &Outcome{}
 	// weighted: 0 history x5, hostile text x3, tables x1 each, nesting, recursion
-	mode := []int{0, 1, 2, 3, 4, 5, 0, 0, 0, 0, 3, 3, 6}[c.Intn(13)]
+	mode := []int{0, 1, 2, 3, 4, 5, 0, 0, 0, 0, 3, 3, 6, 7}[c.Intn(14)]
 	sample := map[string]interface{}{}
 	defer func() {
 		if render {
@@ -536,6 +549,30 @@ func (p *c08) Run(c *verifsim.Chooser, st *Stats, render bool) *Outcome {
 			return o
 		}
 		p.usable(o, ev, text, opt, "recursion")
+	case 7: // constant expressions (folded by the optimizer during Prepare)
+		op := c08ConstOps[c.Intn(len(c08ConstOps))]
+		a := c08ConstVals[c.Intn(len(c08ConstVals))]
+		b := c08ConstVals[c.Intn(len(c08ConstVals))]
+		text := fmt.Sprintf(c08ConstShapes[c.Intn(len(c08ConstShapes))], a, op, b)
+		opt := c.Intn(2) == 0
+		currentDesc.Store("constant expression " + text)
+		sample["mode"], sample["script"], sample["optimizer"] = "constant expression", text, opt
+		o.Digest.Str(text)
+		ev := p.newEval(text, "")
+		err, esc := doPrepare(ev.e, opt)
+		o.Nontrivial = true
+		st.fault("constant-expression")
+		if p.check(o, esc, fmt.Sprintf("Prepare of %q (optimizer %v)", text, opt)) || err != nil {
+			return o
+		}
+		r := p.apiCall(ev, c.Intn(2), nil)
+		sample["result"] = r.String()
+		o.Digest.Str(r.String())
+		if p.check(o, r.Escaped, fmt.Sprintf("run of %q", text)) {
+			return o
+		}
+		_, _, desc := doDump(ev.e)
+		p.check(o, desc, "Dump of a constant expression")
 	case 6: // values nested deeply at run time, then printed
 		si := c.Intn(len(c08RuntimeNest))
 		n := 1 + c.Intn(400000)
